@@ -311,6 +311,11 @@ pub fn gen_case<E: Engine>(seed: u64, focus: &str, tier: Tier, idx: u64) -> E::C
 
 /// Run a batch for one property on one engine. Returns the process exit code.
 pub fn run_batch<E: Engine>(args: &BatchArgs) -> i32 {
+    run_batch_ev::<E>(args).0
+}
+
+/// Like `run_batch`, also returning the evidence document (written to disk only if asked).
+pub fn run_batch_ev<E: Engine>(args: &BatchArgs) -> (i32, serde_json::Value) {
     let t0 = Instant::now();
     let next = AtomicU64::new(0);
     let stop = AtomicBool::new(false);
@@ -432,7 +437,8 @@ pub fn run_batch<E: Engine>(args: &BatchArgs) -> i32 {
     }
 
     let wall = t0.elapsed().as_secs_f64();
-    if args.write_evidence {
+    let mut ev_doc = serde_json::Value::Null;
+    {
         let runs_per_hour = if explore_wall > 0.0 { agg.evaluations as f64 / explore_wall * 3600.0 } else { 0.0 };
         let ev = serde_json::json!({
             "property_id": args.prop,
@@ -476,15 +482,15 @@ pub fn run_batch<E: Engine>(args: &BatchArgs) -> i32 {
             "wall_s": wall,
             "violations": n_unlisted,
         });
-        let dir = verif_root().join("evidence");
-        let _ = std::fs::create_dir_all(&dir);
-        let path = dir.join(format!("{}.json", args.prop));
-        if let Err(e) = std::fs::write(&path, serde_json::to_string_pretty(&ev).unwrap()) {
-            eprintln!("HARNESS-ERROR: cannot write evidence {}: {e}", path.display());
-            if exit == 0 {
-                exit = 2;
+        if args.write_evidence {
+            if let Err(e) = write_evidence_file(&args.prop, &ev) {
+                eprintln!("HARNESS-ERROR: {e}");
+                if exit == 0 {
+                    exit = 2;
+                }
             }
         }
+        ev_doc = ev;
     }
     println!(
         "{} {} [{}] engine={} runs={} nontrivial={} schedules={} steps={} violations={} wall={:.1}s",
@@ -499,7 +505,14 @@ pub fn run_batch<E: Engine>(args: &BatchArgs) -> i32 {
         n_unlisted,
         wall
     );
-    exit
+    (exit, ev_doc)
+}
+
+pub fn write_evidence_file(prop: &str, ev: &serde_json::Value) -> Result<(), String> {
+    let dir = verif_root().join("evidence");
+    let _ = std::fs::create_dir_all(&dir);
+    let path = dir.join(format!("{prop}.json"));
+    std::fs::write(&path, serde_json::to_string_pretty(ev).unwrap()).map_err(|e| format!("cannot write evidence {}: {e}", path.display()))
 }
 
 /// Delta-debugging style minimisation: repeatedly take the first one-step simplification that
